@@ -31,3 +31,40 @@ def table(names=None) -> dict:
 
 def describe(p) -> str:
     return "nan" if isinstance(p, float) and math.isnan(p) else repr(p)
+
+
+EDGE_CANDIDATES = [0.0, 1e-6, 0.001, 0.01, 0.05, 0.1, 0.2, 0.3, 0.5, 0.6, 0.67, 0.7, 0.75, 0.8, 0.9, 0.95, 0.99, 0.999, 1.0, 1.5, 2.0, 3.0, 5.0, 10.0, 100.0]
+
+
+def edge_configs(name: str, sizes=(1, 2, 3, 4, 5)) -> list[dict]:
+    """configurations at the edge of what the validators accept: the smallest populations, and every float / int parameter of the optimizer at the smallest and
+    the largest candidate value its validator accepts (one parameter moved at a time, the others as documented)"""
+    import pyvolutionary
+    from .optimizers import registry
+    e = next(x for x in registry() if x["name"] == name)
+    ccls = getattr(pyvolutionary, e["config"])
+    base = dict(e["kwargs"])
+    out = []
+    moves = [{}]
+    for f, info in ccls.model_fields.items():
+        if f in ("population_size", "max_cycles", "fitness_error", "early_stopping"): continue
+        v0 = base.get(f, info.default)
+        if isinstance(v0, bool) or not isinstance(v0, (int, float)): continue
+        cands = sorted(set(EDGE_CANDIDATES + [v0 * k for k in (0.5, 2.0)])) if isinstance(v0, float) else sorted({1, 2, 3, max(1, v0 // 2), v0 * 2, v0 + 1, max(1, v0 - 1)})
+        ok = []
+        for c in cands:
+            try:
+                ccls(**{**base, f: c}); ok.append(c)
+            except Exception:
+                pass
+        for c in ([ok[0], ok[-1]] if len(ok) > 1 else ok):
+            if c != v0: moves.append({f: c})
+    for P in sizes:
+        for mv in moves:
+            cfg = {**mv, "population_size": P}
+            try:
+                ccls(**{**base, **cfg})
+            except Exception:
+                continue
+            out.append(cfg)
+    return out
